@@ -93,7 +93,36 @@ def t_expLogical(rep, ints):
     ])
 
 
+def t_parseBlock(rep, ints):
+    inputs = ["out a>> f", "out a~> f", "a|:", "out ab>> f", "out (", "a>>", "a~>"]
+    body = "func TestVerifReplay(t *testing.T) {\n"
+    for s in inputs:
+        body += '''	verifCatch(t, %s, func() {
+		done := make(chan bool, 1)
+		go func() {
+			defer func() {
+				if r := recover(); r != nil { fmt.Printf("VERIF-REPRODUCED ParseBlock(%%q): panic: %%v\\n", %s, r) }
+				done <- true
+			}()
+			blk := NewBlock([]rune(%s))
+			blk.ParseBlock()
+		}()
+		select {
+		case <-done:
+		case <-time.After(5 * time.Second):
+			fmt.Printf("VERIF-REPRODUCED ParseBlock(%%q) did not return within 5s (hang)\\n", %s)
+		}
+	})
+''' % (go_quote(s), go_quote(s), go_quote(s), go_quote(s))
+    body += "}\n"
+    return "lang/expressions", "expressions", '\t"time"', body
+
+
 def install(T, g):
+    T["lang/expressions.(*ParserT).parseStatement"] = t_parseBlock
+    T["lang/expressions.(*ParserT).parseExpression"] = t_parseBlock
+    T["lang/expressions.(*ParserT).parseBareword"] = t_parseBlock
+    T["lang/expressions.processStatementColon"] = t_parseBlock
     T["lang/expressions.expLogicalAnd"] = t_expLogical
     T["lang/expressions.expLogicalOr"] = t_expLogical
     T["builtins/pipes/streams.(*Stdin).ReadAll"] = t_stdin_ReadAll
